@@ -184,3 +184,64 @@ def float_bop(rng, fmt):
 def rand_tri(rng, den, kind=None):
     b, u = rand_simplex(rng, 2, den, kind)
     return [b[0], b[1], u]
+
+
+# ---------------------------------------------------------------- boundary opinions (floats)
+def edge_u(rng, fmt, kind):
+    """uncertainty values around the guards, as floats of format fmt"""
+    e = EPS[fmt]
+    if kind == "vac_edge":      # 1 - k*eps/2, k = 1..12 (the guard fires for k <= 4)
+        return 1.0 - rng.randint(1, 12) * e / 2
+    if kind == "dog_edge":      # k*eps/2 and tiny values
+        return rng.choice([rng.randint(1, 6) * e / 2, 2.0 ** -1074 if fmt == "f64" else 2.0 ** -149,
+                           1e-300 if fmt == "f64" else 1e-38, 1e-30, e * e])
+    if kind == "vac_sweep":     # 1 - 10^-k
+        return 1.0 - 10.0 ** (-rng.uniform(3, 15.5 if fmt == "f64" else 6.8))
+    if kind == "dog_sweep":
+        return 10.0 ** (-rng.uniform(3, 300 if fmt == "f64" else 37))
+    raise ValueError(kind)
+
+
+def round_fmt(fmt, x):
+    if fmt == "f32":
+        return struct.unpack(">f", struct.pack(">f", x))[0]
+    return float(x)
+
+
+def edge_simplex(rng, fmt, n, kind):
+    """simplex whose uncertainty sits at a guard edge; belief = exact remainder split on up to 2 entries"""
+    u = round_fmt(fmt, edge_u(rng, fmt, kind))
+    rest = round_fmt(fmt, 1.0 - u)
+    b = [0.0] * n
+    i = rng.randrange(n)
+    if n > 1 and rng.random() < 0.5:
+        j = (i + 1 + rng.randrange(n - 1)) % n
+        b[i] = rest / 2
+        b[j] = rest - rest / 2
+    else:
+        b[i] = rest
+    return b, u
+
+
+def guard_operand(rng, fmt, n, den=16):
+    """one operand from the guard lattice: (b, u) with a tag"""
+    k = rng.choice(["vac", "dog", "vac_edge", "dog_edge", "int", "int", "vac_sweep", "dog_sweep"])
+    if k in ("vac", "dog", "int"):
+        b, u = rand_simplex(rng, n, den, k)
+        return [float(x) for x in b], float(u), k
+    b, u = edge_simplex(rng, fmt, n, k)
+    return b, u, k
+
+
+def base_rate_pair(rng, fmt, n, den=16):
+    """(a_left, a_right, relation) : different / equal values / within 4 ulps"""
+    a1 = [float(x) for x in rand_dist(rng, n, den)]
+    r = rng.random()
+    if r < 0.5:
+        return a1, [float(x) for x in rand_dist(rng, n, den)], "diff"
+    if r < 0.75:
+        return a1, list(a1), "equal"
+    a2 = list(a1)
+    i = rng.randrange(n)
+    a2[i] = step(fmt, a2[i], rng.choice([1, 2, 4, 5, 8])) if a2[i] > 0 else a2[i]
+    return a1, a2, "ulps"
